@@ -23,6 +23,9 @@ type Opt struct {
 	MaxNested   int  // cap on nested alphabet size per message-typed field (0 = 24)
 	NoNegZero   bool
 	Fill        bool // add FILL slots that set all required fields of a message
+	// EmptyComposite adds slots that call Mutable on a list / map field without
+	// adding anything (a stored-but-empty composite, content-equal to absent).
+	EmptyComposite bool
 }
 
 var (
